@@ -8,6 +8,7 @@ import (
 	"go/token"
 	"go/types"
 	"sort"
+	"strconv"
 	"strings"
 
 	"golang.org/x/tools/go/ssa"
@@ -95,6 +96,7 @@ func (vc *VC) declare(name, sort string) {
 		return
 	}
 	vc.declared[name] = true
+	vc.declared["const:"+name] = true
 	vc.decls = append(vc.decls, fmt.Sprintf("(declare-const %s %s)", name, sort))
 }
 
@@ -271,6 +273,8 @@ func (vc *VC) locComp(l *Loc) (comp string, outerSortWrap func(string) string) {
 		return "deref:" + typeKey(l.T), func(s string) string { return "(Array Int " + s + ")" }
 	case LGlobal:
 		return "glob:" + l.Glob, func(s string) string { return s }
+	case LGhost:
+		return "ghost:" + l.Glob, func(s string) string { return "(Array Int " + s + ")" }
 	}
 	panic("locComp")
 }
@@ -289,7 +293,7 @@ func (vc *VC) readLeaf(st *State, l *Loc, lf Leaf) Term {
 	name, srt := vc.regComp(l, lf)
 	h := vc.heapGet(st, name, srt)
 	switch l.Kind {
-	case LField, LDeref:
+	case LField, LDeref, LGhost:
 		return sel(h, l.Base)
 	case LElem:
 		return sel(sel(h, l.Base), l.Idx)
@@ -303,7 +307,7 @@ func (vc *VC) writeLeaf(st *State, l *Loc, lf Leaf, v Term) {
 	name, srt := vc.regComp(l, lf)
 	h := vc.heapGet(st, name, srt)
 	switch l.Kind {
-	case LField, LDeref:
+	case LField, LDeref, LGhost:
 		vc.heapSet(st, name, srt, store(h, l.Base, v))
 	case LElem:
 		vc.heapSet(st, name, srt, store(h, l.Base, store(sel(h, l.Base), l.Idx, v)))
@@ -698,4 +702,21 @@ func (vc *VC) strLit(s string) Term {
 
 func (vc *VC) typeTag(t types.Type) Term {
 	return num(int64(vc.G.tagOf(t)))
+}
+
+// patAtom returns a term that may appear inside a quantifier pattern: a declared constant
+// constrained to equal t (define-fun names expand to ite/store terms, which z3 rejects in patterns).
+func (vc *VC) patAtom(t Term, sort string) Term {
+	if vc.declared["const:"+t] {
+		return t
+	}
+	if !strings.ContainsAny(t, " (") {
+		if _, err := strconv.ParseInt(t, 10, 64); err == nil {
+			return t
+		}
+	}
+	n := vc.fresh("pa")
+	vc.declare(n, sort)
+	vc.axiom(eq(n, t))
+	return n
 }
